@@ -263,9 +263,13 @@ def splitPath (s : String) : List String := if s.isEmpty then [] else s.splitOn 
 def showEV : Option EV → String
   | some .redacted => "R"
   | some (.val (.scalar n)) => toString n
-  | some (.val _) => "M"
+  | some (.val _) => "M"           -- a written map / slice of a plain kind: shown verbatim (compared by the Go oracles)
   | some .nil => "nil"
-  | some (.map _) => "M"
+  | some (.map kvs) =>
+    -- a map of opaque strings: the written keys, every value redacted
+    if kvs.all (fun p => match p.2 with | .redacted => true | _ => false)
+    then "{" ++ ";".intercalate (sortStrs (kvs.map (fun p => hex p.1 ++ "=R"))) ++ "}" else "M"
+  | some (.list xs) => "[" ++ ";".intercalate (xs.map (fun _ => "R")) ++ "]"
   | none => "none"
 
 /-- `op faith comp=<hex section/type> w=<hexpath>:<id>,… q=<hexpath>,…`: decode the written leaves onto the
@@ -294,19 +298,29 @@ def loadHandler : Handler LS where
   init := {}
   onOp := fun s toks =>
     match toks with
+    | "typedef" :: rest =>
+      -- the PRISTINE factory default of a component type (flattened effective form, taken before anything was loaded)
+      match kv rest "type", kv rest "def" with
+      | some t, some d => ({ s with defs := (t, parsePairs d) :: s.defs.filter (fun p => p.1 != t) }, ["obs typedef"])
+      | _, _ => (s, ["obs bad-op"])
     | "inst" :: rest =>
-      match kv rest "id", kv rest "def", kv rest "w" with
-      | some id, some d, some w =>
+      match kv rest "id", kv rest "type", kv rest "w", kv rest "q" with
+      | some id, some ty, some w, some q =>
+        -- `loadAll`: every instance = the default of ITS TYPE overlaid by ITS OWN written keys; the model decides what the
+        -- instance shows at the queried leaves (written ones and defaults under untouched top-level keys)
         let marker := hex redactionMarker
         let wr := parsePairs w
         let secs := wr.filterMap (fun p => if p.2.startsWith "!" then some (p.2.drop 1).toString else none)
         let wr' := wr.map (fun p => if p.2.startsWith "!" then (p.1, marker) else p)
-        let s := { s with entries := s.entries ++ [((id, ""), wr')], defs := (id, parsePairs d) :: s.defs, secrets := secs ++ s.secrets }
+        let s := { s with entries := s.entries ++ [((ty, id), wr')], secrets := secs ++ s.secrets }
         let st := loadAll (fun t => (s.defs.lookup t).getD []) s.entries
-        match st.result (id, "") with
-        | some o => (s, ["obs eff " ++ showObj o])
+        match st.result (ty, id) with
+        | some o =>
+          let qs := if q == "-" then [] else q.splitOn ","
+          let items := sortStrs (qs.map fun hp => hp ++ ":" ++ ((o.lookup hp).getD "absent"))
+          (s, ["obs eff " ++ (if items.isEmpty then "-" else ",".intercalate items)])
         | none => (s, ["obs bad-op"])
-      | _, _, _ => (s, ["obs bad-op"])
+      | _, _, _, _ => (s, ["obs eff -"])     -- corpus cases without an instance (invalid nested values, defaults probe)
     | "faith" :: rest => (s, [faithOp rest])
     | _ => (s, ["obs bad-op"])
   onObs := fun s toks =>
